@@ -39,6 +39,7 @@ def run(prog: Program, rep: Report, tier: str) -> None:
     where = f"{loc(fi, fi.node)} {fi.qualname}"
     I = Interp(prog)
     st = I.new_state()
+    ci.require_attrs(["_on_datagram", "transport"], "symbolic protocol object")
     selfv = st.alloc(HeapObj("obj", ci, {"_on_datagram": ("sym", "on_datagram", "callable"), "transport": ("sym", "transport", ("extobj", "transport"))}, [], False, "self", False))
     data = ("sym", "data", "bytes")
     args = {fi.params[0]: selfv, fi.params[1]: data}
